@@ -5,7 +5,7 @@ import itertools
 
 from ..program import AnalysisError, walk_local, dotted
 from ..analysis import Spec, src, const_value
-from ..rules import (template_sites, inside, before, GWF, EXC, mpt, need_func, stores_to, is_const, kw,
+from ..rules import (substitute_locals, parent_map, template_sites, inside, before, GWF, EXC, mpt, need_func, stores_to, is_const, kw,
                      parent_map, raise_class, explicit_exits,
                      strip_wrappers)
 from . import common
@@ -94,6 +94,19 @@ def refusal_before_destruction(prog, an, rep):
                   'lossy-reset refusal' % why, path=c.describe_path(path))
 
 
+def _names_of(f, e):
+    """If e (possibly through a local) is [x.name for x in <list>] without a
+    filter, the text of <list>."""
+    if e is None:
+        return None
+    e = substitute_locals(f, e, depth=1) if isinstance(e, ast.Name) else e
+    if isinstance(e, (ast.ListComp, ast.GeneratorExp)) and \
+            len(e.generators) == 1 and not e.generators[0].ifs and \
+            src(e.elt) == src(e.generators[0].target) + '.name':
+        return src(e.generators[0].iter)
+    return None
+
+
 def guard_table(prog, an, rep):
     R = 'C15.EXH.refusal-guard'
     f = need_func(an, CMD + '._reset')
@@ -110,10 +123,20 @@ def guard_table(prog, an, rep):
         f, lambda e: isinstance(e, ast.Name) and e.id == lossy)]
     if len(tests) != 1:
         raise AnalysisError('anchor-missing single test on %s' % lossy)
+    # the decision starts at the first atom of the `if` that holds the test
+    # on the warning (the operands of its condition may come in any order)
+    pm_ = parent_map(f.node)
+    top = tests[0].ast
+    while top in pm_ and not isinstance(pm_[top], ast.stmt):
+        top = pm_[top]
+    ids = [i for x in ast.walk(top) for i in c.copies.get(id(x), [])
+           if c.nodes[i].kind == 'test']
+    first_atom = min(ids) if ids else tests[0].id
     dest = {n.id for n, _ in _destructive(prog, an, f)}
+    fparam = 'force' if 'force' in f.params else f.params[-1]
     for has, force in itertools.product((True, False), repeat=2):
-        env = {lossy: True if has else None, 'force': force}
-        got = _explore(an, f, c, tests[0].id, env, dest)
+        env = {lossy: True if has else None, fparam: force}
+        got = _explore(an, f, c, first_atom, env, dest)
         rep.evaluated()
         if has and not force:
             ok = got == {('raise', EXC + '.LossyResetWarning')}
@@ -315,10 +338,18 @@ def force_wiring(prog, an, rep):
 def own_branches_only(prog, an, rep):
     R = 'C15.ARG.own-branches'
     f = need_func(an, CMD + '._reset')
-    wb = [v for _, v in stores_to(f, 'wbranches') if v is not None]
+    # the local that holds this pull request's integration branches
+    wb_var, wb = None, []
+    for st in walk_local(f.node, include_root=False):
+        if isinstance(st, ast.Assign) and len(st.targets) == 1 and \
+                isinstance(st.targets[0], ast.Name):
+            v = strip_wrappers(st.value)
+            if isinstance(v, ast.Call) and an.call_matches(
+                    f, v, Spec.func(I + '.get_integration_branches')):
+                wb_var = st.targets[0].id
+    if wb_var is not None:
+        wb = [v for _, v in stores_to(f, wb_var) if v is not None]
     ok = len(wb) == 1 and isinstance(strip_wrappers(wb[0]), ast.Call) and \
-        an.call_matches(f, strip_wrappers(wb[0]),
-                        Spec.func(I + '.get_integration_branches')) and \
         [src(a) for a in strip_wrappers(wb[0]).args] == [f.params[0]]
     rep.evaluated()
     rep.check(ok, R, f.qname + ': wbranches = list('
@@ -335,7 +366,7 @@ def own_branches_only(prog, an, rep):
                 loop = pm[loop]
             rep.evaluated()
             ok = isinstance(loop, ast.For) and \
-                src(loop.iter) == 'wbranches' and \
+                src(loop.iter) == wb_var and \
                 isinstance(loop.target, ast.Name) and \
                 src(x.func.value) == loop.target.id
             rep.check(ok, R, f.qname + ': removes exactly the pull '
@@ -364,9 +395,8 @@ def own_branches_only(prog, an, rep):
             isinstance(vs[0].func, ast.Attribute) and \
             vs[0].func.attr == 'get_pull_requests' and \
             src(vs[0].func.value).endswith('project_repo') and \
-            src(kw(vs[0], 'src_branch') or ast.Constant(value=0)) == \
-            '[b.name for b in wbranches]' and len(vs[0].keywords) == 1 and \
-            not vs[0].args
+            _names_of(f, kw(vs[0], 'src_branch')) == wb_var and \
+            len(vs[0].keywords) == 1 and not vs[0].args
         rep.check(ok, R, f.qname + ': declines exactly the pull requests of '
                   'its own integration branches', f.where(x),
                   'declined pull requests come from %s' %
